@@ -558,6 +558,8 @@ def _quant(st, n, is_forall):
             st.locals[names[0]] = Val(ty, x)
         else:
             dv = E.ev(st, dom)
+            if dv.t.kind == 'none':
+                return E.mk_bool(z3.BoolVal(is_forall))      # empty domain (e.g. an absent call_result)
             if dv.t.kind in ('list', 'seq'):
                 s, et = B.seq_of(st, dv)
                 k = z3.Int('k!q%d' % tag)
@@ -614,7 +616,25 @@ def sf_isinstance(st, n):
 
 
 def sf_getattr(st, n):
-    raise Undecided('getattr() at line %s needs a contract-level model' % n.lineno)
+    """getattr(obj, 'name', default) on an object whose class declares the field: the attribute may be
+    unset on the instance (ghost flag <name>__set when declared), in which case the default is returned."""
+    if len(n.args) != 3 or not isinstance(n.args[1], ast.Constant):
+        raise Undecided('getattr() at line %s needs a contract-level model' % n.lineno)
+    obj = E.ev(st, n.args[0])
+    name = n.args[1].value
+    default = E.ev(st, n.args[2])
+    if obj.t.kind == 'union':
+        obj = E.concretize(st, obj)
+    if obj.t.kind != 'ref':
+        raise Undecided('getattr on %r' % (obj.t,))
+    dcls, fty = R.find_field(obj.t.name, name)
+    if dcls is None:
+        raise Undecided('getattr: %s.%s not declared' % (obj.t.name, name))
+    fl, _ = R.find_field(obj.t.name, name + '__set')
+    if fl is not None:
+        if not st.branch(st.read_field(obj.z, obj.t.name, name + '__set').z):
+            return default
+    return st.read_field(obj.z, obj.t.name, name)
 
 
 def sf_super(st, n):
@@ -646,7 +666,7 @@ def sf_is_type(st, n):
     return E.mk_bool(c)
 
 
-_SYNTACTIC = {'cast': sf_cast, 'is_type': sf_is_type,'old': sf_old, 'implies': sf_implies, 'iff': sf_iff, 'forall': sf_forall,
+_SYNTACTIC = {'getattr': sf_getattr, 'cast': sf_cast, 'is_type': sf_is_type,'old': sf_old, 'implies': sf_implies, 'iff': sf_iff, 'forall': sf_forall,
               'exists': sf_exists, 'let': sf_let, 'isinstance': sf_isinstance}
 
 
